@@ -5,10 +5,13 @@ SCH = ["pedersen-bls-chained", "pedersen-bls-unchained", "bls-unchained-g1-rfc93
        "bls-bn254-unchained-on-g1"]
 
 # participants: 0..5 good, 6 bad self-signature, 7 undecodable key, 8 = clone of 0 (same address, attacker key),
-# 9 = clone of 1, 10 = clone of 3, 11 = address and self-signature of 1 with another key
+# 9 = clone of 1, 10 = clone of 3, 11 = address and self-signature of 1 with another key,
+# 12 = participant 1 whose signature field holds: its signature, the framing of a leaver entry for 2, and 2's signature,
+# 13 = participant 0 whose signature field holds: its signature, the framing of a remainer entry for 1, and 1's signature
 GOOD = [0, 1, 2, 3, 4, 5]
 CLONE = {8: 0, 9: 1, 10: 3}
-ALIAS = {8: 0, 9: 1, 10: 3, 11: 1}   # index -> index of the participant whose address it carries
+ALIAS = {8: 0, 9: 1, 10: 3, 11: 1, 12: 1, 13: 0}   # index -> index of the participant whose address it carries
+EMBED = {12: (1, "Leaver", 2), 13: (0, "Remainer", 1)}
 
 
 def header(scheme):
@@ -20,6 +23,8 @@ def header(scheme):
     for c, o in CLONE.items():
         ops.append(f"mkpart {c} 0 {scheme} clone:{o}")
     ops.append(f"mkpart 11 0 {scheme} keyswap:1")
+    for i, (j, role, k) in EMBED.items():
+        ops.append(f"mkpart {i} 0 {scheme} embed:{j}:{role}:{k}")
     return ops
 
 
@@ -48,7 +53,8 @@ MUTATIONS = ["epoch-1", "epoch+1", "epoch+5", "thr0", "thr-high", "thr-low", "ti
              "genesis+1", "seed-change", "drop-member", "unknown-remaining", "badsig-joiner", "badkey-joiner", "leader-leaving",
              "leader-joining", "no-remaining", "beaconid", "period+1", "catchup+1", "leader-clone", "member-clone",
              "swap-join-remain", "leaver-dropped", "joiner-extra", "member-keyswap", "dup-member-drop", "dup-member-leave",
-             "move-remain-to-leave", "move-leave-to-remain", "clone-joiner"]
+             "move-remain-to-leave", "move-leave-to-remain", "clone-joiner", "move-join-to-remain", "move-remain-to-join",
+             "catchup0", "period0", "swallow-leaver", "swallow-remainer"]
 
 
 def mutate(rng, t, kind, scheme):
@@ -121,6 +127,20 @@ def mutate(rng, t, kind, scheme):
         return t.copy(remaining=list(t.remaining[:-1]), leaving=[t.remaining[-1]] + list(t.leaving))
     if kind == "move-leave-to-remain" and t.leaving:
         return t.copy(remaining=list(t.remaining) + [t.leaving[0]], leaving=list(t.leaving[1:]))
+    if kind == "move-join-to-remain" and t.joining:
+        # joining ++ remaining ++ leaving unchanged: the last joiner becomes the first remainer
+        return t.copy(joining=list(t.joining[:-1]), remaining=[t.joining[-1]] + list(t.remaining))
+    if kind == "move-remain-to-join" and len(t.remaining) >= 2 and t.remaining[0] != t.leader:
+        return t.copy(joining=list(t.joining) + [t.remaining[0]], remaining=list(t.remaining[1:]))
+    if kind == "swallow-leaver" and t.remaining and t.remaining[-1] == 1 and t.leaving and t.leaving[0] == 2:
+        # same signed BYTES: the leaver entry of 2 sits inside the signature field of the last remainer
+        return t.copy(remaining=list(t.remaining[:-1]) + [12], leaving=list(t.leaving[1:]))
+    if kind == "swallow-remainer" and len(t.remaining) >= 2 and t.remaining[0] == 0 and t.remaining[1] == 1 and t.leader != 0:
+        return t.copy(remaining=[13] + list(t.remaining[2:]))
+    if kind == "catchup0":
+        return t.copy(catchup=0 if t.catchup else 7)
+    if kind == "period0":
+        return t.copy(period=t.period + 30)
     if kind == "clone-joiner":
         # a self-signed joiner that reuses member 1's address with another key
         return t.copy(joining=list(t.joining) + [9])
@@ -285,6 +305,12 @@ def directed_histories(scheme):
             pre = header(scheme) + [f"reset default {sut} {scheme}"] + (first if sut in (1, 2) else [])
             hs.append(pre + [pkt("proposal/" + m.tok(), m.leader, signer, signed_terms=m), "dump"])
             hs.append(pre + [pkt("proposal/" + m.tok(), 0, 0, signed_pkt="proposal/" + t2.tok(), signed_terms=t2), "dump"])
+    # a newcomer (no previous group to compare with) is shown the terms of shape 2 with the leaver swallowed into the signature
+    # field of the last remainer: the signed bytes are those of the genuine terms
+    tg = shapes[2]
+    tsw = mutate(_R(), tg, "swallow-leaver", scheme)
+    pre3 = header(scheme) + [f"reset default 3 {scheme}"]
+    hs.append(pre3 + [pkt("proposal/" + tsw.tok(), 0, 0, signed_pkt="proposal/" + tg.tok(), signed_terms=tg), "dump"])
     # the same member seen through the operator's command (leader proposing mutated options)
     pre0 = header(scheme) + [f"reset default 0 {scheme}", f"cmd initial O1:2:@+3600:@+100:{scheme}:5:30:0,1,2", "cmd execute",
                              "complete G:101:@+100:abcd:0,1,2 1"]
@@ -301,6 +327,98 @@ def directed_histories(scheme):
         for kind_ in ("accept", "reject"):
             hs.append(pre + prop + [pkt(f"{kind_}/1", 1, 9, signed_terms=tc), pkt(f"{kind_}/1", 1, 1, signed_terms=tc), "dump"])
     return hs
+
+
+def _reach(scheme, sut, state, E=4):
+    """ops (after the header) that bring SUT to `state` at epoch E with epochs 1..E-1 completed by [0,1,2];
+    returns (ops, members, seed)"""
+    t1 = Terms(bid="default", epoch=1, thr=2, timeout="@+3600", scheme=scheme, genesis="@+100", seed="-", catchup=5, period=30,
+               leader=0, joining=[0, 1, 2], remaining=[], leaving=[])
+    ops = [pkt("proposal/" + t1.tok(), 0, 0, signed_terms=t1)]
+    if sut in (1, 2):
+        ops += ["cmd join -", pkt("execute/@+9000", 0, 0, signed_terms=t1), "complete G:101:@+100:abcd:0,1,2 1"]
+    else:
+        ops = []
+    tag = 101
+    for e in range(2, E):
+        t = Terms(bid="default", epoch=e, thr=2, timeout="@+3600", scheme=scheme, genesis="@+100", seed="abcd", catchup=5, period=30,
+                  leader=0, joining=[], remaining=[0, 1, 2], leaving=[])
+        tag += 1
+        if sut in (1, 2):
+            ops += [pkt("proposal/" + t.tok(), 0, 0, signed_terms=t), "cmd accept", pkt("execute/@+9000", 0, 0, signed_terms=t),
+                    f"complete G:{tag}:@+100:abcd:0,1,2 1"]
+    if state == "Left":       # SUT (2) is sent off at epoch E
+        t = Terms(bid="default", epoch=E, thr=2, timeout="@+3600", scheme=scheme, genesis="@+100", seed="abcd", catchup=5, period=30,
+                  leader=0, joining=[], remaining=[0, 1], leaving=[sut])
+        ops += [pkt("proposal/" + t.tok(), 0, 0, signed_terms=t), pkt("execute/@+9000", 0, 0, signed_terms=t)]
+    else:
+        t = Terms(bid="default", epoch=E, thr=2, timeout="@+3600", scheme=scheme, genesis="@+100", seed="abcd", catchup=5, period=30,
+                  leader=0, joining=[], remaining=[0, 1, 2], leaving=[])
+        ops += [pkt("proposal/" + t.tok(), 0, 0, signed_terms=t)]
+        if state == "Aborted":
+            ops += [pkt("abort/none", 0, 0, signed_terms=t)]
+        elif state == "Failed":
+            ops += ["cmd accept", pkt("execute/@+9000", 0, 0, signed_terms=t), "fail"]
+        elif state == "Complete":
+            ops += ["cmd accept", pkt("execute/@+9000", 0, 0, signed_terms=t), f"complete G:{tag + 1}:@+100:abcd:0,1,2 1"]
+        elif state == "Executing":
+            ops += ["cmd accept", pkt("execute/@+9000", 0, 0, signed_terms=t)]
+        elif state == "Accepted":
+            ops += ["cmd accept"]
+    return ops
+
+
+def epoch_sweep_histories(scheme, E=4, states=("Left", "Complete", "Aborted", "Failed", "Executing"), span=3):
+    """a node that reached Left / Complete / Aborted / Failed / Executing at epoch E is shown correctly signed proposals of
+    every epoch E-span..E+span naming it as joiner, as remaining member and as leaver (TimedOut has no caller in the code)"""
+    hs = []
+    for state in states:
+        sut = 2
+        pre = header(scheme) + [f"reset default {sut} {scheme}"] + _reach(scheme, sut, state, E)
+        for e in range(max(1, E - span), E + span + 1):
+            for role in ("joiner", "remainer", "leaver"):
+                if e == 1:
+                    if role != "joiner":
+                        continue
+                    t = Terms(bid="default", epoch=1, thr=2, timeout="@+3600", scheme=scheme, genesis="@+100", seed="-", catchup=5,
+                              period=30, leader=0, joining=[0, 1, sut], remaining=[], leaving=[])
+                else:
+                    j, r, v = {"joiner": ([sut], [0, 1], []), "remainer": ([], [0, 1, sut], []), "leaver": ([], [0, 1], [sut])}[role]
+                    t = Terms(bid="default", epoch=e, thr=2, timeout="@+3600", scheme=scheme, genesis="@+100", seed="abcd", catchup=5,
+                              period=30, leader=0, joining=j, remaining=r, leaving=v)
+                hs.append(pre + [pkt("proposal/" + t.tok(), 0, 0, signed_terms=t), "dump"])
+    return hs
+
+
+def gate_groups(scheme):
+    """a gossip packet is served while an operator command sits between its read of the stored state and the rest
+    (`gate cmd … | pkt …`), next to the two sequential orders of the same pair. [(name, gated, cmd-first, pkt-first)]"""
+    out = []
+    t1 = Terms(bid="default", epoch=1, thr=2, timeout="@+3600", scheme=scheme, genesis="@+100", seed="-", catchup=5, period=30,
+               leader=0, joining=[0, 1, 2], remaining=[], leaving=[])
+    t2 = Terms(bid="default", epoch=2, thr=3, timeout="@+3600", scheme=scheme, genesis="@+100", seed="abcd", catchup=5, period=30,
+               leader=0, joining=[3], remaining=[0, 1, 2], leaving=[])
+    first = [pkt("proposal/" + t1.tok(), 0, 0, signed_terms=t1), "cmd join -", pkt("execute/@+9000", 0, 0, signed_terms=t1),
+             "complete G:101:@+100:abcd:0,1,2 1"]
+    lead1 = [f"cmd initial O1:2:@+3600:@+100:{scheme}:5:30:0,1,2", "cmd execute", "complete G:101:@+100:abcd:0,1,2 1"]
+    res2 = f"cmd resharing O:{t2.thr}:{t2.timeout}:{t2.catchup}:{lst(t2.joining)}:{lst(t2.remaining)}:{lst(t2.leaving)}"
+    abort1 = pkt("abort/none", 0, 0, signed_terms=t1)
+    abort2 = pkt("abort/none", 0, 0, signed_terms=t2)
+    prop2 = pkt("proposal/" + t2.tok(), 0, 0, signed_terms=t2)
+    cases = [
+        ("joiner-join-vs-abort", 1, [pkt("proposal/" + t1.tok(), 0, 0, signed_terms=t1)], "cmd join -", abort1),
+        ("member-accept-vs-abort", 1, first + [prop2], "cmd accept", abort2),
+        ("member-reject-vs-abort", 2, first + [prop2], "cmd reject", abort2),
+        ("member-accept-vs-execute", 1, first + [prop2], "cmd accept", pkt("execute/@+9000", 0, 0, signed_terms=t2)),
+        ("newcomer-join-vs-abort", 3, [prop2], "cmd join G:101:@+100:abcd:0,1,2", abort2),
+        ("leader-abort-vs-accept", 0, lead1 + [res2], "cmd abort", pkt("accept/1", 1, 1, signed_terms=t2)),
+        ("leader-execute-vs-reject", 0, lead1 + [res2], "cmd execute", pkt("reject/2", 2, 2, signed_terms=t2)),
+        ("member-accept-vs-newproposal", 1, first + [prop2, abort2], "cmd accept", prop2),
+    ]
+    for name, sut, pre, cmd, p in cases:
+        head = header(scheme) + [f"reset default {sut} {scheme}"] + pre
+        out.append((name, head + [f"gate {cmd} | {p}", "dump"], head + [cmd, p, "dump"], head + [p, cmd, "dump"]))
+    return out
 
 
 DUMP = re.compile(r"e=(\d+) s=(\w+) t=(\d+) to=(-?\d+) sch=(\S+) g=(-?\d+) seed=(\S+) c=(\d+) p=(\d+) L=(\S+) R=\[(.*?)\] J=\[(.*?)\] V=\[(.*?)\] A=\[(.*?)\] X=\[(.*?)\] fg=(\S+) sh=(\d)")
